@@ -214,6 +214,8 @@ func NameLabels() []string {
 		"f", "A", "F", "g", "aa", "0a", "in-addr", "IN-ADDR", "İn-addr", "xin-addr", "in-addr-",
 		"ip6", "IP6", "İp6", "xip6", "arpa", "ARPA", "arpa-", "com", "COM", "c0m", "123", "a b", "*",
 		"xn--0", "xn--a-", "xn--zz", "XN--E1AFMKFD", "xn--", "host192", "1234",
+		// right-to-left labels, as ACE and as Unicode: a profile with the Bidi rule judges the *other* labels by them
+		"xn--4dbrk0ce", "ישראל",
 	}
 }
 
